@@ -5475,6 +5475,8 @@ class DecRule:
         else:
             if rvar.model.mtype != 'S':
                 raise ValueError('The input is not a random variable.')
+            if self.model is not rvar.model.top:
+                raise ValueError('Models mismatch.')
             ldr_row, ldr_col = self.size, self.model.rc_model.vars[-1].last
             ldr_coeff = np.array([[np.nan] * ldr_col] * ldr_row)
             rand_ind = rvar.get_ind()
